@@ -581,6 +581,208 @@ def r4_7(ctx, rc):
               key='removed sets only change element-wise')
 
 
+def r4_11(ctx, rc):
+    """The class's own crucial invariant: a directory stays in the removed /
+    maybe-removed sets as long as it is reserved (a key of the reservation
+    counts) - a later failure can make it disappear again.  Every element-
+    wise removal from these sets is therefore dominated by the fact that the
+    element is not reserved: a test in the function itself (after the last
+    assignment of the variable), or at every call site when the element is
+    the function's parameter, or the element is a child of such a parameter
+    (the recursive scan of an unreserved directory)."""
+    from .refcount import Walk
+    prog = ctx.prog
+    cls = ctx.R.cls('BuildDirs')
+    A = ctx.E.func('BuildDirs.started_building_file')
+    Rl = ctx.E.func('BuildDirs.error_building_file')
+    cattrs = Walk(ctx, A).counter_attr() & Walk(ctx, Rl).counter_attr()
+    if len(cattrs) != 1:
+        raise AnalysisError('reservation counter not identified')
+    counts = next(iter(cattrs))
+    sets = ('_removed_dirs', '_maybe_removed_dirs')
+
+    def unreserved_fact(lab, expr_dump, func):
+        if not (isinstance(lab, tuple) and len(lab) == 4):
+            return False
+        a = lab[1]
+        if not (isinstance(a, ast.Compare) and len(a.ops) == 1 and
+                isinstance(a.comparators[0], ast.Attribute) and
+                a.comparators[0].attr == counts):
+            return False
+        if lab[2] is not func or ast.dump(a.left) != expr_dump:
+            return False
+        return (isinstance(a.ops[0], ast.NotIn) and lab[0] == 'T') or \
+            (isinstance(a.ops[0], ast.In) and lab[0] == 'F')
+
+    def guarded(m, expr, site_pred):
+        """expr is known unreserved at every node satisfying site_pred."""
+        sg = ctx.E.super(m, lambda g: False)
+        names = {n.id for n in ast.walk(expr) if isinstance(n, ast.Name)}
+        starts = [sg.entry] + [
+            x.id for x in sg.nodes
+            if x.kind == 'out' and set(x.cn.defs) & names]
+        d = ast.dump(expr)
+        seen = sg.reach(starts, edge_ok=lambda a, b, lab:
+                        not unreserved_fact(lab, d, m))
+        return not any(site_pred(x) and x.id in seen for x in sg.nodes)
+
+    def param_ok(m, pname, depth=0):
+        """Every call site passes an unreserved element."""
+        if depth > 3:
+            return False
+        callers = prog.callers().get(m.qualname, [])
+        if not callers:
+            return False
+        for caller, call in callers:
+            a = prog.bind_args(call, m).get(pname)
+            if a is None or isinstance(a, list):
+                return False
+            if guarded(caller, a, lambda x, call=call: x.kind in (
+                    'leaf', 'enter') and x.call is call):
+                continue
+            cn = ctx.H.node_of(caller, call)
+            a2 = ctx.H.subst(a, caller, cn[0]) if cn else a
+            # a child of the caller's own unreserved parameter
+            if isinstance(a2, ast.Call) and ast.unparse(a2.func).endswith(
+                    'join') and a2.args and isinstance(
+                        a2.args[0], ast.Name) and \
+                    a2.args[0].id in caller.params and (
+                        caller is m or param_ok(caller, a2.args[0].id,
+                                                depth + 1)):
+                continue
+            if isinstance(a2, ast.Name) and a2.id in caller.params and \
+                    caller is not m and param_ok(caller, a2.id, depth + 1):
+                continue
+            return False
+        return True
+    n = 0
+    for m in cls.methods.values():
+        if m.name == '__init__':
+            continue
+        for call in prog.calls_in(m):
+            f = call.func
+            if not (isinstance(f, ast.Attribute) and f.attr in (
+                    'discard', 'remove', 'pop') and isinstance(
+                        f.value, ast.Attribute) and f.value.attr in sets
+                    and call.args):
+                continue
+            n += 1
+            x = call.args[0]
+            key = '%s.%s(%s) in %s' % (f.value.attr, f.attr,
+                                       ast.unparse(x)[:30], m.qualname)
+            ok = guarded(m, x, lambda sn, call=call: sn.kind == 'leaf' and
+                         sn.call is call)
+            if not ok and isinstance(x, ast.Name) and x.id in m.params:
+                ok = param_ok(m, x.id)
+            if ok:
+                rc.ok({'removal': key, 'requires': 'not in .' + counts},
+                      key=key)
+            else:
+                rc.violation(
+                    'removed-while-reserved | %s | %s' % (
+                        m.qualname, f.value.attr),
+                    '%s takes %s out of .%s without having established '
+                    'that it is not reserved (not a key of .%s): if the '
+                    'outputs reserved below it fail later, the directory '
+                    'does not disappear from the view again' % (
+                        m.qualname, ast.unparse(x), f.value.attr, counts),
+                    prog.loc(m, call), key=key)
+    if n < 3:
+        raise AnalysisError('only %d removals from the removed sets' % n)
+
+
+def _removed_scan(ctx):
+    """(query, memo attribute, scan function) of the removed-directory
+    query of BuildDirs."""
+    from ..astpaths import cond_paths
+    prog = ctx.prog
+    Qf = ctx.E.func('BuildDirs.is_removed_norm_case')
+    memo = scan = None
+    rets = {r.value.id for r in ast.walk(Qf.node)
+            if isinstance(r, ast.Return) and isinstance(r.value, ast.Name)}
+    for conds, st0 in cond_paths(Qf.node.body):
+        st = st0
+        if isinstance(st, ast.Assign) and len(st.targets) == 1 and \
+                isinstance(st.targets[0], ast.Name) and \
+                st.targets[0].id in rets:
+            st = ast.Return(value=st.value)
+        if not isinstance(st, ast.Return) or st.value is None:
+            continue
+        if isinstance(st.value, ast.Constant) and st.value.value is True:
+            for t, pol in conds:
+                if pol and isinstance(t, ast.Compare) and len(t.ops) == 1 \
+                        and isinstance(t.ops[0], ast.In) and isinstance(
+                            t.comparators[0], ast.Attribute):
+                    memo = t.comparators[0].attr
+        elif isinstance(st.value, ast.Call):
+            for g in prog.resolve_call(st.value, Qf):
+                if isinstance(g, Func) and g.cls == Qf.cls:
+                    scan = g
+    if memo is None or scan is None:
+        raise AnalysisError('removed-directory memo / scan not identified '
+                            'in ' + Qf.qualname)
+    return Qf, memo, scan
+
+
+def r4_12(ctx, rc):
+    """A directory the real file system does not have (FileNotFoundError
+    from the listing in the scan) is answered "removed", never "present":
+    nothing of this build is there, and the caller must re-create and
+    re-record it."""
+    Qf, memo, scan = _removed_scan(ctx)
+    sg = ctx.helpers_graph(scan)
+    lst = [x for x in sg.nodes if x.kind == 'leaf' and
+           callee_name(x) in ('os.listdir', 'os.scandir')]
+    if not lst:
+        raise AnalysisError('the scan %s lists no directory' %
+                            scan.qualname)
+    key = 'a vanished directory is answered "removed"'
+    bad = None
+    covers = {'FileNotFoundError', 'OSError', 'EnvironmentError', 'IOError',
+              'Exception', 'BaseException'}
+    for x in lst:
+        # the handler that receives FileNotFoundError from this listing:
+        # the first matching handler of the innermost enclosing try
+        node = x.call
+        hnd = None
+        while node is not None and hnd is None:
+            par = ctx.prog.parent(node)
+            if isinstance(par, ast.Try) and any(
+                    node is b or any(node is y for y in ast.walk(b))
+                    for b in par.body):
+                for h in par.handlers:
+                    names = ['BaseException'] if h.type is None else [
+                        ast.unparse(t).split('.')[-1] for t in (
+                            h.type.elts if isinstance(h.type, ast.Tuple)
+                            else [h.type])]
+                    if set(names) & covers:
+                        hnd = h
+                        break
+            node = par
+        if hnd is None:
+            continue          # propagates: the scan raises, no verdict
+        starts = [y.id for y in sg.nodes if y.kind == 'in' and
+                  y.cn.kind == 'handler' and y.cn.ast is hnd]
+        if not starts:
+            raise AnalysisError('handler of the listing not in the graph')
+        seen = sg.reach(starts)
+        if sg.exits['F'] in seen:
+            bad = (x, sg.witness(seen, sg.exits['F']))
+    if bad:
+        rc.violation(
+            'vanished-dir-present | ' + scan.qualname,
+            '%s can answer "present" for a directory whose listing raised '
+            'FileNotFoundError: a directory of the previous build that was '
+            'deleted externally is treated as existing (queries disagree '
+            'with the real tree; the next build does not re-create and '
+            're-record it, so clean leaves its parent behind)' %
+            scan.qualname, bad[0].where(), sg.describe_path(bad[1]),
+            key=key)
+    else:
+        rc.ok({'scan': scan.qualname, 'on': 'FileNotFoundError',
+               'answer': 'removed'}, key=key)
+
+
 def r4_8(ctx, rc):
     from .refcount import refcount_rule
     refcount_rule(ctx, rc, 'BuildDirs.started_building_file',
@@ -668,4 +870,7 @@ RULES = [
     ('R4.9', 'a concurrently created directory keeps an owner', r4_9),
     ('R4.10', 'a "removed" verdict of the directory scan is memoised',
      r4_10),
+    ('R4.11', 'removed-knowledge is dropped only for unreserved dirs',
+     r4_11),
+    ('R4.12', 'a vanished directory is answered "removed"', r4_12),
 ]
